@@ -2,8 +2,14 @@ import Claripy.VSA.DSIS
 import Claripy.VSA.Conc
 /-!
 Model of `backend_vsa.py`: which interval operation each AST operator dispatches to, `If`, `And/Or/Not` on
-`BoolResult`, `apply_annotation` on leaves, and names (`eq` answers True for equal names; names survive only the
-copying operations `zero_extend`, `sign_extend` of a non-negative interval and a full-width `extract`).
+`BoolResult`, `apply_annotation` on leaves, and names.  Every `StridedInterval` carries a name and `eq` answers True for
+equal names.  A leaf variable carries the variable's name; every operation that builds a new interval gives it a FRESH name,
+and the backend converts an AST once (`Backend.convert` keeps the converted object of every AST, ASTs are hash-consed), so
+all occurrences of one sub-AST are ONE object with ONE name: the fresh name created at a node is identified by the node
+(`NameKey.node t`).  The operand's name survives where the code returns the operand or a `copy()` of it: `zero_extend`
+(non-wrapping operand), `sign_extend` of a non-negative interval (it calls `zero_extend`), a full-width `extract`, a shift of
+an empty interval (`_lshift` / `_rshift_*` return `self`), the branch `If` selects, and the other operand of a join with an
+empty interval (`pseudo_join` returns `b` / `s`).
 With `_allow_dsis_flag = False` (the default) every bit-vector value is a single interval.
 The ASTs evaluated here are the ones claripy hands to the backend (after construction-time simplification and
 `excavate_ite`, which belong to other properties).
@@ -31,7 +37,7 @@ inductive BV where
   | extract (hi lo : Nat) (a : BV)
   | concat (a b : BV)
   | ite (c : BExp) (a b : BV)
-  deriving Repr
+  deriving Repr, DecidableEq
 inductive BExp where
   | lit (b : Bool)
   | cmp (op : CmpOp) (a b : BV)
@@ -39,13 +45,21 @@ inductive BExp where
   | and (c d : BExp)
   | or (c d : BExp)
   | ite (c a b : BExp)
-  deriving Repr
+  deriving Repr, DecidableEq
 end
 
-/-- an abstract bit-vector value: the interval and the variable whose name it still carries -/
+/-- the name of a `StridedInterval`: the name of variable `i` (`BVS(ast)` / `apply_annotation` keep `ast.args[0]`), or the
+fresh name (`SI_<counter>`) the operation at node `t` gave its result - one per AST, because the backend converts an AST
+once -/
+inductive NameKey where
+  | var (i : Nat)
+  | node (t : BV)
+  deriving Repr, DecidableEq
+
+/-- an abstract bit-vector value: the interval and the name it carries (`none`: a name nothing else carries) -/
 structure AV where
   si : SI
-  name : Option Nat := none
+  name : Option NameKey := none
   deriving Repr, DecidableEq
 
 def brAnd : BoolRes → BoolRes → BoolRes
@@ -94,11 +108,18 @@ def sextKeeps (x : SI) : R Bool :=
   (x.extract (x.bits - 1) (x.bits - 1)) >>= fun m => (m.eval 2 false) >>= fun msb => pure (decide (msb = [0]) && zextKeeps x)
 def extractKeeps (x : SI) (hi lo : Nat) : Bool := decide (lo = 0 ∧ hi + 1 - lo = x.bits)
 
-/-- `BackendVSA.If` on bit-vectors -/
-def iteBV (cv : BoolRes) (x y : AV) : R AV :=
+/-- do `_lshift` / `_rshift_logical` / `_rshift_arithmetic` return `self` (empty operand)?  Then the loop over the shift
+amounts joins `self` with `self` (`pseudo_join` returns its second argument) and the result IS the operand -/
+def shiftKeeps (op : BinOp) (x : SI) : Bool :=
+  (match op with | .shl | .lshr | .ashr => true | _ => false) && x.bottom
+
+/-- `BackendVSA.If` on bit-vectors: the selected branch itself, or `t.union(f)`; `pseudo_join` returns the other operand
+when one is empty, else a new interval (`fresh` = the name it gets) -/
+def iteBV (cv : BoolRes) (x y : AV) (fresh : Option NameKey := none) : R AV :=
   if !cv.hasTrue then pure y
   else if !cv.hasFalse then pure x
-  else (x.si.union y.si) >>= fun r => pure { si := r }
+  else (x.si.union y.si) >>= fun r =>
+    pure { si := r, name := if x.si.bottom then y.name else if y.si.bottom then x.name else fresh }
 
 def iteB (cv x y : BoolRes) : BoolRes :=
   if !cv.hasTrue then y else if !cv.hasFalse then x else brOrUnion x y      -- BoolResult.union
@@ -106,29 +127,32 @@ def iteB (cv x y : BoolRes) : BoolRes :=
 mutual
 /-- `BackendVSA.convert` on a bit-vector AST; `anno i` is the annotation of variable `i` -/
 def convBV (anno : Nat → SI) : BV → Orders → R (AV × Orders)
-  | .var i _, o => pure ({ si := anno i, name := some i }, o)
-  | .free i w, o => pure ({ si := SI.top w, name := some i }, o)
-  | .const v w, o => pure ({ si := SI.new w 0 v v }, o)
+  | .var i _, o => pure ({ si := anno i, name := some (.var i) }, o)
+  | .free i w, o => pure ({ si := SI.top w, name := some (.var i) }, o)
+  | .const v w, o => pure ({ si := SI.new w 0 v v, name := some (.node (.const v w)) }, o)
   | .bin op a b, o =>
     convBV anno a o >>= fun p1 => convBV anno b p1.2 >>= fun p2 =>
-    applyBin op p1.1.si p2.1.si p2.2 >>= fun p3 => pure ({ si := p3.1 }, p3.2)
-  | .neg a, o => convBV anno a o >>= fun p1 => pure ({ si := p1.1.si.neg }, p1.2)
-  | .not a, o => convBV anno a o >>= fun p1 => p1.1.si.bitwiseNot >>= fun r => pure ({ si := r }, p1.2)
+    applyBin op p1.1.si p2.1.si p2.2 >>= fun p3 =>
+    pure ({ si := p3.1, name := if shiftKeeps op p1.1.si then p1.1.name else some (.node (.bin op a b)) }, p3.2)
+  | .neg a, o => convBV anno a o >>= fun p1 => pure ({ si := p1.1.si.neg, name := some (.node (.neg a)) }, p1.2)
+  | .not a, o =>
+    convBV anno a o >>= fun p1 => p1.1.si.bitwiseNot >>= fun r => pure ({ si := r, name := some (.node (.not a)) }, p1.2)
   | .zext k a, o =>
     convBV anno a o >>= fun p1 => p1.1.si.zeroExtend (k + p1.1.si.bits) >>= fun r =>
-    pure ({ si := r, name := if zextKeeps p1.1.si then p1.1.name else none }, p1.2)
+    pure ({ si := r, name := if zextKeeps p1.1.si then p1.1.name else some (.node (.zext k a)) }, p1.2)
   | .sext k a, o =>
     convBV anno a o >>= fun p1 => p1.1.si.signExtend (k + p1.1.si.bits) >>= fun r =>
-    sextKeeps p1.1.si >>= fun keeps => pure ({ si := r, name := if keeps then p1.1.name else none }, p1.2)
+    sextKeeps p1.1.si >>= fun keeps =>
+    pure ({ si := r, name := if keeps then p1.1.name else some (.node (.sext k a)) }, p1.2)
   | .extract hi lo a, o =>
     convBV anno a o >>= fun p1 => p1.1.si.extract hi lo >>= fun r =>
-    pure ({ si := r, name := if extractKeeps p1.1.si hi lo then p1.1.name else none }, p1.2)
+    pure ({ si := r, name := if extractKeeps p1.1.si hi lo then p1.1.name else some (.node (.extract hi lo a)) }, p1.2)
   | .concat a b, o =>
     convBV anno a o >>= fun p1 => convBV anno b p1.2 >>= fun p2 =>
-    p1.1.si.concat p2.1.si >>= fun r => pure ({ si := r }, p2.2)
+    p1.1.si.concat p2.1.si >>= fun r => pure ({ si := r, name := some (.node (.concat a b)) }, p2.2)
   | .ite c a b, o =>
     convB anno c o >>= fun pc => convBV anno a pc.2 >>= fun p1 => convBV anno b p1.2 >>= fun p2 =>
-    iteBV pc.1 p1.1 p2.1 >>= fun r => pure (r, p2.2)
+    iteBV pc.1 p1.1 p2.1 (some (.node (.ite c a b))) >>= fun r => pure (r, p2.2)
 /-- … on a Boolean AST -/
 def convB (anno : Nat → SI) : BExp → Orders → R (BoolRes × Orders)
   | .lit b, o => pure (if b then .t else .f, o)
